@@ -121,7 +121,9 @@ static Scen suspF(int n, bool hold) {        // a task suspends itself inside an
 static int g_ran[16]; static tbb::global_control* GC; static tbb::task_arena* AR2;
 static Scen enq(int conc, int reserved, int ntasks, int limit, bool two, bool hold = false) {   // limit > 0: global_control max_allowed_parallelism (1 = zero workers: mandatory concurrency)
     return {two ? 2 : 1, [=] { memset(g_ran, 0, sizeof g_ran); GC = limit ? new tbb::global_control(tbb::global_control::max_allowed_parallelism, limit) : nullptr;
-                   AR = new tbb::task_arena(conc, reserved); AR2 = two ? new tbb::task_arena(2, 0) : nullptr; },
+                   AR = new tbb::task_arena(conc, reserved); AR2 = two ? new tbb::task_arena(2, 0) : nullptr;
+                   // focus of the priority schedules: the 'arena may contain work' / 'mandatory worker' flags and the demand aggregator word
+                   AR->initialize(); track(&AR->my_arena.load()->my_pool_state); track(&AR->my_arena.load()->my_mandatory_concurrency); },
         [ntasks, hold](int id) {
             tbb::task_arena* a = id == 0 ? AR : AR2;
             for (int k = 0; k < ntasks; k++) { int u = 1 + id * 8 + k;
@@ -133,7 +135,7 @@ static Scen enq(int conc, int reserved, int ntasks, int limit, bool two, bool ho
 }
 static Scen make(const std::string& s) {
     if (s == "enqH") return enq(2, 1, 3, 0, false, true); if (s == "enq1H") return enq(1, 1, 3, 0, false, true); if (s == "enqL1H") return enq(2, 1, 3, 1, false, true); if (s == "enqx2H") return enq(2, 1, 2, 0, true, true);
-    if (s == "enq") return enq(2, 1, 2, 0, false); if (s == "enq1") return enq(1, 1, 2, 0, false); if (s == "enq0") return enq(2, 0, 3, 0, false);
+    if (s == "enq") return enq(2, 1, 2, 0, false); if (s == "enq1") return enq(1, 1, 2, 0, false); if (s == "enq0") return enq(2, 0, 3, 0, false); if (s == "enq03") return enq(3, 0, 4, 0, false);
     if (s == "enqL1") return enq(2, 1, 2, 1, false); if (s == "enq1L1") return enq(1, 1, 2, 1, false); if (s == "enqL2x2") return enq(3, 1, 2, 2, true); if (s == "enqx2") return enq(2, 1, 2, 0, true);
     if (s == "mon_all") return mon_all(2, 1); if (s == "mon_all22") return mon_all(2, 2); if (s == "mon_one") return mon_one(2); if (s == "mon_pred") return mon_pred(2);
     if (s == "mon_abort") return mon_abort(2); if (s == "bq") return bq(1, 2, 2, 2); if (s == "bq2") return bq(2, 3, 1, 2); if (s == "bq13") return bq(1, 1, 3, 3);
@@ -163,7 +165,14 @@ static int probe() {
         if (phase == 4) { if (full && !seen_load_na) fence_na = true; if (e.kind == K_LOAD) seen_load_na = true; }
     }
     mon.cancel_wait(other);
-    printf("{\"fence_w\":%d,\"fence_notify_one\":%d,\"fence_notify_all\":%d,\"events\":%zu}\n", fence_w, fence_n1, fence_na, evs.size());
+    // is the busy marker of arena::atomic_flag::try_clear_if unique per clear transaction?  two transactions (on two flags) are in flight at once
+    // and the raw state words are compared
+    static r1::atomic_flag fl[2]; static std::uintptr_t seen[2]; static int inpred;
+    { fl[0].test_and_set(); fl[1].test_and_set(); inpred = 0; seen[0] = seen[1] = 0;
+      Sched S2; S2.spawn(2, [&](int id) { fl[id].try_clear_if([&] { seen[id] = vh::rawload(fl[id].my_state); ++inpred; for (int i = 0; i < 2000 && inpred < 2; i++) cosched::yield_point(); return false; }); });
+      S2.run_random(1, 1000000, 1); S2.join_all(); }
+    int unique_busy = (seen[0] != seen[1] && seen[0] > 1 && seen[1] > 1) ? 1 : 0;
+    printf("{\"busy_unique\":%d,\"fence_w\":%d,\"fence_notify_one\":%d,\"fence_notify_all\":%d,\"events\":%zu}\n", unique_busy, fence_w, fence_n1, fence_na, evs.size());
     return 0;
 }
 struct Stats { long paths, steps, stuck, sleeps, wakes, buffered, workers; };
